@@ -62,7 +62,9 @@ fn check_case(case: &Value, idx: usize) -> Option<Value> {
             Ok(Err(e)) => return Some(json!({"site": "FileAppender (relative path)", "what": "build failed", "error": e.to_string()})),
             Ok(Ok(_a)) => {
                 let ok = std::path::Path::new(&rel_want).is_file();
-                let stray = rel_in != rel_want && std::path::Path::new(&rel_in).is_file();
+                // (the unexpanded text read as a path may lead to the very same place - "$ENV{B}/../f" and "x/../f" once
+                // another input has left a directory named "$ENV{B}" behind: a stray file is one at a different place)
+                let stray = lands(rel_in.clone()) != lands(rel_want.clone()) && std::path::Path::new(&rel_in).is_file();
                 let _ = std::fs::remove_file(&rel_want);
                 if !ok || stray {
                     let _ = std::fs::remove_file(&rel_in);
